@@ -289,3 +289,14 @@ pub fn distinct_numbers(n: usize) -> BoxedStrategy<Vec<f64>> {
         })
         .boxed()
 }
+
+/// common power-of-two scale (exact): 0 in ~70% of cases, else uniform in [-emax, emax].
+/// The integral / spline properties are homogeneous in the ordinate direction, so a defect guarded
+/// by an ABSOLUTE threshold (|shift| < EPSILON, ...) only shows when everything is small.
+pub fn common_scale(emax: i32) -> BoxedStrategy<f64> {
+    prop_oneof![
+        7 => Just(1.0),
+        3 => (-emax..=emax).prop_map(|k| ppv_exact::pow2_f64(k as i64)),
+    ]
+    .boxed()
+}
